@@ -609,6 +609,9 @@ fn run_generated<C>(
                         rng_seed: RngSeed::Fixed(seed_bytes(seed, sub, t)),
                         rng_algorithm: RngAlgorithm::ChaCha,
                         max_shrink_iters: 6_000,
+                        // bounds the *minimisation* only (a slow failing case, e.g. a detected deadlock);
+                        // the verdict never depends on it
+                        max_shrink_time: 240_000,
                         max_global_rejects: 1_000_000,
                         ..Config::default()
                     };
